@@ -312,3 +312,15 @@ Definition fresh_case (t : ty) (le1 be1 le2 be2 : bytes) : list Z :=
 From Prophy Require Import PyRoundtrip PyRoundtripGreedy.
 Definition tail_defs_case (t : ty) (v : value) : list Z :=
   if Bool.eqb (tail_clean t v) (greedy_tail_aligned t v) then [] else [99; b2z (tail_clean t v); b2z (greedy_tail_aligned t v)].
+
+From Prophy Require Import Text Print.
+
+(* text rendering (C18). One case per rendered message and implementation (who = 0: Python str(), 1: C++
+   print()): [] when the names fit the type, the value is well-typed, the type has no floating point member,
+   the implementation's model reproduces the observed text and the observed text is the specified one;
+   otherwise [96; names_ok; wt; no_float; model = observed; spec = observed] followed by the specified text *)
+Definition text_case (who : Z) (t : ty) (n : names) (v : value) (obs : bytes) : list Z :=
+  let a := names_ok t n in let w := wt t v in let f := no_float t in
+  let m := beq (if who =? 0 then py_str t n v else cpp_text t n v) obs in
+  let s := beq (text_of t n v) obs in
+  if a && w && f && m && s then [] else [96; b2z a; b2z w; b2z f; b2z m; b2z s] ++ text_of t n v.
